@@ -8,12 +8,22 @@ SEEDED = os.path.join(VERIF, "seeded")
 
 
 def main():
+    global DESC
+    try:
+        DESC = json.load(open(os.path.join(SEEDED, "descriptions.json")))
+    except OSError:
+        DESC = {}
     rows = []
     for d in sorted(os.listdir(SEEDED)):
         mp = os.path.join(SEEDED, d, "meta.json")
         if not os.path.exists(mp):
             continue
         m = json.load(open(mp))
+        if d in DESC:
+            m["what"], m["needs"] = DESC[d]
+            m.setdefault("breaks_property", m.get("property"))
+            with open(mp, "w") as fh:
+                json.dump(m, fh, indent=1)
         rows.append((d, m))
     out = ["# Independently seeded changes", "",
            "Each directory holds `patch.diff` (the library change), `demo.diff` (a demonstration that fails with the change and "
